@@ -5,6 +5,7 @@ Evidence written during these runs goes to work/seed_evidence, never to evidence
 import os, sys, json, subprocess, time
 ROOT = os.path.dirname(os.path.dirname(os.path.abspath(__file__)))
 SEEDED = os.path.join(ROOT, 'seeded')
+REPO = os.environ.get('VERIF_REPO', '/repo')      # a scratch worktree when several copies run in parallel (tools/seedpar.py)
 EXTRA = {'C03_m2': ['C16'], 'C13_m2': ['C17'], 'C05_m1': ['C13'], 'C12_m1': ['C07'], 'C15_m1': ['C07'], 'C07_m2': ['C15'], 'C01_m2': ['C04', 'C08'], 'C01_m1': ['C07'],
          'C10_m1': ['C17', 'C07'], 'C06_m1': ['C13'], 'C06_m2': ['C17'],
          'C01_m4': ['C16'], 'C03_m3': ['C17', 'C19'], 'C06_m3': ['C14'], 'C04_m4': ['C16'], 'C10_m4': ['C16'], 'C19_m4': ['C16', 'C17'], 'C17_m4': ['C19'], 'C14_m4': ['C16', 'C07'],
@@ -24,7 +25,7 @@ def main():
             extra = a.split('=', 1)[1].split(',')
     claimed = {c['property_id'] for c in json.load(open(os.path.join(ROOT, 'MANIFEST.json')))['checks']}
     env = dict(os.environ, VERIF_EVIDENCE_DIR=os.path.join(ROOT, 'work', 'seed_evidence'))
-    assert sh('git -C /repo status --porcelain').stdout.strip() == '', '/repo is not clean'
+    assert sh('git -C ' + REPO + ' status --porcelain').stdout.strip() == '', '/repo is not clean'
     for sid in sorted(os.listdir(SEEDED)):
         if args and sid not in args:
             continue
@@ -35,12 +36,12 @@ def main():
         meta = json.load(open(mp))
         props = [meta['property']] + ([] if '--own' in sys.argv else EXTRA.get(sid, [])) + extra
         props = [p for p in dict.fromkeys(props) if p in claimed]
-        r = sh('git -C /repo apply %s' % os.path.join(d, 'patch.diff'))
+        r = sh('git -C ' + REPO + ' apply %s' % os.path.join(d, 'patch.diff'))
         if r.returncode != 0:
-            r = sh('git -C /repo apply --3way %s' % os.path.join(d, 'patch.diff'))
+            r = sh('git -C ' + REPO + ' apply --3way %s' % os.path.join(d, 'patch.diff'))
         if r.returncode != 0:
             print(sid, 'PATCH DOES NOT APPLY', r.stderr[-200:])
-            sh('git -C /repo checkout -- .')
+            sh('git -C ' + REPO + ' checkout -- .')
             continue
         try:
             for p in props:
@@ -62,10 +63,10 @@ def main():
                 print(sid, p, 'exit', c.returncode, 'concrete' if det['concrete_input'] else ('alarm-without-input' if line else 'MISSED'), det['secs'])
                 sys.stdout.flush()
         finally:
-            sh('git -C /repo checkout -- .')
-            sh('git -C /repo reset -q')
+            sh('git -C ' + REPO + ' checkout -- .')
+            sh('git -C ' + REPO + ' reset -q')
         json.dump(meta, open(mp, 'w'), indent=1)
-    assert sh('git -C /repo status --porcelain').stdout.strip() == '', '/repo left dirty!'
+    assert sh('git -C ' + REPO + ' status --porcelain').stdout.strip() == '', '/repo left dirty!'
 
 
 if __name__ == '__main__':
